@@ -32,7 +32,11 @@ def plan_calls(rng, ver, n):
         elif k == "get":
             calls.append({"op": "get", "oids": [arcs]})
         elif k == "get_many":
-            calls.append({"op": "get_many", "oids": [gen.rarcs(rng, 6) for _ in range(rng.choice([0, 1, 2, 5, 30]))]})
+            oids = [gen.rarcs(rng, 6) for _ in range(rng.choice([0, 1, 2, 5, 30]))]
+            if oids and rng.random() < 0.5:
+                # the same OID asked for more than once, not adjacent: the request must still carry every one, in order
+                oids = oids + [oids[0]] + oids[:2]
+            calls.append({"op": "get_many", "oids": oids})
         elif k in ("getnext", "fetch"):
             calls.append({"op": k, "oids": [arcs[:rng.randint(2, len(arcs))]], "steps": rng.choice([0, 1, 2, 3])})
         elif k == "getbulk":
